@@ -683,11 +683,17 @@ pub fn cmd_long(out: &str, _seed: u64, thorough: bool) {
     }
     // records of 9 MiB: the default policy has to grow the buffer beyond 8 MiB, where it stops doubling
     // (each in a child process: a policy that answers with an absurd size makes the allocator abort the process)
-    for cap in [65536usize, 8 << 20] {
-        for fmt in ["fasta", "fastq"] {
-            writeln!(f, "{}", in_child(fmt, 9 << 20, cap)).unwrap();
+    for fmt in ["fasta", "fastq"] {
+        let mut runs = vec![];
+        // (16 MiB: large enough from the start - the same input read without any growth, for comparison)
+        for cap in [65536usize, 8 << 20, 16 << 20] {
+            let line = in_child(fmt, 9 << 20, cap);
+            writeln!(f, "{}", line).unwrap();
+            runs.push(line);
             cases += 1;
         }
+        writeln!(f, "{{\"ev\":\"giantcmp\",\"fmt\":\"{}\",\"cap\":0,\"runs\":[{}]}}", fmt, runs.join(",")).unwrap();
+        cases += 1;
     }
     {
         let rows = std::panic::catch_unwind(policy_table);
